@@ -31,6 +31,12 @@ type ActiveCase struct {
 	PlaceISS bool    `json:"place_iss"`
 	StackISS uint32  `json:"stack_iss"`
 	Steps    []AStep `json:"steps"`
+	// After: once the open has ended (refused, or completed and then reset by
+	// the peer) the application closes the socket and a late segment of the
+	// former connection arrives: 1 ACK, 2 SYN-ACK, 3 SYN. No socket exists for
+	// it any more, so it is answered by exactly one reset (a registration left
+	// behind by the dead endpoint would swallow it).
+	After int `json:"after,omitempty"`
 }
 
 func runActive(c ActiveCase) *evid.Failure {
@@ -235,6 +241,71 @@ func runActive(c ActiveCase) *evid.Failure {
 			return evid.Failf("rst-unexplained", "the stack emitted %s which does not acknowledge any non-RST segment sent to it\n%s", f.Pkt, renderActive(iss, inj, frames))
 		}
 	}
+	if c.After > 0 && res != nil && res.ok && (res.err == nil || res.err == tcpip.ErrConnectionRefused) {
+		inject := func(seg codec.TCPSeg) {
+			l4 := codec.BuildTCP(src, dst, seg)
+			if c.V6 {
+				env.Tap.Inject(0x86dd, codec.BuildIPv6(codec.IPv6Hdr{Src: src, Dst: dst, NextHeader: codec.ProtoTCP}, l4))
+			} else {
+				env.Tap.Inject(0x0800, codec.BuildIPv4(codec.IPv4Hdr{Src: src, Dst: dst, Proto: codec.ProtoTCP, ID: 999}, l4))
+			}
+		}
+		how := "refused"
+		if res.err == nil {
+			// reset the established connection exactly at the sequence number it expects
+			how = "established and reset by the peer"
+			rcvNxt := c.PeerISS + 1
+			for _, f := range env.Tap.Trace() {
+				if f.Pkt.L4Kind == "tcp" && f.Pkt.Flags&codec.ACK != 0 && f.Pkt.Flags&codec.RST == 0 {
+					rcvNxt = f.Pkt.Ack
+				}
+			}
+			inject(codec.TCPSeg{SrcPort: 80, DstPort: port, Flags: codec.RST, Seq: rcvNxt, Wnd: 0})
+			time.Sleep(5 * time.Millisecond)
+		}
+		cs.EP.Close()
+		time.Sleep(10 * time.Millisecond)
+		env.Tap.Quiesce(2*time.Millisecond, 100*time.Millisecond)
+		stray := codec.TCPSeg{SrcPort: 80, DstPort: port, Wnd: 30000, Seq: c.PeerISS + 77}
+		wantSeq, wantAck, wantFl := uint32(0), uint32(0), uint8(codec.RST)
+		switch c.After {
+		case 1:
+			stray.Flags, stray.Ack = codec.ACK, iss+40
+			wantSeq = stray.Ack
+		case 2:
+			stray.Flags, stray.Ack = codec.SYN|codec.ACK, iss+1
+			wantSeq = stray.Ack
+		default:
+			stray.Flags = codec.SYN
+			wantAck, wantFl = stray.Seq+1, codec.RST|codec.ACK
+		}
+		from := env.Tap.Len()
+		inject(stray)
+		match := func(f netsim.Frame) bool {
+			k := f.Pkt
+			return k.L4Kind == "tcp" && k.SrcPort == port && k.DstPort == 80 && k.Flags&codec.RST != 0
+		}
+		_, _, got := env.Tap.Scan(from, 1500*time.Millisecond, match)
+		if !got {
+			return evid.Failf("stray-after-close-no-reset", "the open (%s) is over and the socket closed, so no socket exists for port %d any more, but a late %s of the former connection drew no reset within 1.5 s\n%s", how, port, codec.FlagString(stray.Flags), renderActive(iss, inj, env.Tap.Trace()))
+		}
+		time.Sleep(10 * time.Millisecond)
+		n := 0
+		var last *codec.Packet
+		for _, f := range env.Tap.Trace()[from:] {
+			if match(f) {
+				n++
+				last = f.Pkt
+			}
+		}
+		if n != 1 {
+			return evid.Failf("stray-after-close-resets", "a late %s for a closed socket drew %d resets, want exactly one", codec.FlagString(stray.Flags), n)
+		}
+		if last.Seq != wantSeq || (wantFl&codec.ACK != 0 && (last.Flags&codec.ACK == 0 || last.Ack != wantAck)) {
+			return evid.Failf("stray-after-close-reset-numbers", "a late %s (seq=%d ack=%d) for a closed socket drew %s, want seq=%d ack=%d", codec.FlagString(stray.Flags), stray.Seq, stray.Ack, last, wantSeq, wantAck)
+		}
+		evid.Label("active:stray-after-close:" + how)
+	}
 	if len(needs) > 0 || len(inj) > 1 {
 		evid.NonTrivialKey("active", fmt.Sprintf("%+v", c))
 		evid.Sample("active", c)
@@ -292,9 +363,24 @@ func genActive(rt *rapid.T) ActiveCase {
 		}
 		c.Steps = append(c.Steps, st)
 	}
+	c.After = rapid.SampledFrom([]int{0, 1, 2, 3}).Draw(rt, "after")
 	return c
 }
 
+// the stray-after-close verdict waits for a reset with a deadline: confirmed by a second run
+func runActiveConfirmed(c ActiveCase) *evid.Failure {
+	f := runActive(c)
+	if f == nil || f.Sig != "stray-after-close-no-reset" {
+		return f
+	}
+	if f2 := runActive(c); f2 != nil {
+		return f2
+	}
+	evid.Label("active:stray-verdict-not-confirmed")
+	evid.Unconfirmed()
+	return nil
+}
+
 func TestActive(t *testing.T) {
-	evid.Run(t, evid.Spec[ActiveCase]{Name: "active", Gen: genActive, Run: runActive})
+	evid.Run(t, evid.Spec[ActiveCase]{Name: "active", Gen: genActive, Run: runActiveConfirmed})
 }
